@@ -553,7 +553,12 @@ class _ConfigArg(argparse._StoreAction):
         if value.lower() in ("false", "no", "n"):
             path = pjoin(const.DATA_PATH, "stubconfig")
         else:
-            path = arghparse.existent_path(value)
+            try:
+                path = arghparse.existent_path(value)
+            except (argparse.ArgumentTypeError, ValueError) as e:
+                # raised from an action (not from a type= converter) argparse would
+                # let it escape as a traceback instead of a usage error
+                raise argparse.ArgumentError(self, str(e)) from e
         setattr(namespace, self.dest, path)
 
 
